@@ -271,6 +271,10 @@ def c06(a):
     c = Check("C06", a.tier, a.seed)
     workdir("C06")
     binary = build_harness()
+    if not a.replay:
+        # Engine C: the start of a civil day that the trace specification expects is the least instant with that
+        # civil date, for every zone of the tiny universe of MC_ZonedUntil (gaps and set-backs across midnight)
+        c.add_mc(tlc_mc("MC_ZonedUntil.tla", "MC_ZonedDay.cfg", os.path.join(workdir("C06", False), "mc")))
     zoned_part(c, a, binary, "c06")
     c.rule = ZONED_RULE + ("C06 events: checked_add / checked_sub / saturating_add with spans (single units, 2- and 3-unit "
               "mixes, magnitudes 1, 2, 12, 13, 23, 24, 25, 31, 366 and seeded up to the limits, both signs), absolute "
